@@ -31,9 +31,9 @@ func init() {
 
 func c06Bounds(tier string) map[string]any {
 	if tier == "thorough" {
-		return map[string]any{"full_alphabet_depth": 4, "core16_depth": 5, "errcore8_depth": 6}
+		return map[string]any{"full_alphabet_depth": 5, "core16_depth": 6, "errcore8_depth": 8}
 	}
-	return map[string]any{"full_alphabet_depth": 3, "core16_depth": 4, "errcore8_depth": 5}
+	return map[string]any{"full_alphabet_depth": 3, "core16_depth": 5, "errcore8_depth": 6}
 }
 
 func c06Run(hist []xletter) explore.Result {
@@ -153,7 +153,7 @@ func c06Enumerate(tier string, emit explore.Emit) {
 	two := []xletter{errcore[0], errcore[1], errcore[2], errcore[4], errcore[7], full[28]} // Parse ok, Parse #perr, Bind, Execute, Sync, Query(ok)
 	td := 4
 	if tier == "thorough" {
-		td = 5
+		td = 6
 	}
 	forShapes(2*len(two), td, func(sh []int) {
 		if len(sh) < 2 || sh[0] >= len(two) {
